@@ -309,7 +309,7 @@ def random_real_case(rng, exact):
     ising = rng.random() < 0.65
     c = base_case(dim, ising)
     n_eff = rng.choice([0, 1, 1, 2, 3]) if dim == 2 else rng.choice([1, 1, 2, 3])
-    eff = [(rng.randint(1, 6), rand_gauss_op(rng, dim, big=rng.random() < 0.2)) for _ in range(n_eff)]
+    eff = [(rng.choice([0, 1, 2, 3, 4, 5, 6]), rand_gauss_op(rng, dim, big=rng.random() < 0.2)) for _ in range(n_eff)]
     relax = rng.choice([0, 0, 1, 2, 3]) if ising else 0
     deph = rng.choice([0, 0, 1, 2, 5])
     depol = rng.choice([0, 0, 1, 3, 4])
@@ -320,13 +320,72 @@ def random_real_case(rng, exact):
         c["relaxation_rate"] = mag() if relax else 0.0
         c["dephasing_rate"] = mag() if deph else 0.0
         c["depolarizing_rate"] = mag() if depol else 0.0
-        c["eff_rates"] = [mag() for _ in eff]
+        c["eff_rates"] = [mag() if k else 0.0 for k, _ in eff]
     if ising and rng.random() < 0.3:
         c["extra_kw"] = rng.choice(SHOT_KW)
     if rng.random() < 0.05 and deph:
         c["hyperfine_dephasing_rate"] = 0.001
     c["tag"] = "random-real"
     return c
+
+
+def distinct_ops(rng, dim, k):
+    """k pairwise distinct, non-zero Gaussian-integer operators"""
+    ops = []
+    while len(ops) < k:
+        op = rand_gauss_op(rng, dim)
+        if any(v != (0, 0) for row in op for v in row) and op not in ops:
+            ops.append(op)
+    return ops
+
+
+def multi_eff_case(rng, dim, ising, k, coeffs, exact, tag):
+    """eff_noise model with k pairwise distinct operators and the given integer coefficients (0 = rate exactly 0.0)"""
+    c = base_case(dim, ising)
+    set_exact(c, eff=list(zip(coeffs, distinct_ops(rng, dim, k))))
+    if not exact:
+        c["exact"] = False
+        rates = []
+        for co in coeffs:   # same coefficient -> same rate, distinct coefficients -> distinct random rates
+            rates.append(0.0 if co == 0 else round(10 ** ((co * 0.37) % 3 - 2) * (1 + co / 7.0), 6))
+        c["eff_rates"] = rates
+    c["tag"] = "multi-eff:" + tag
+    return c
+
+
+def multi_eff_cases(rng, n_random):
+    """2..5 operators: an exact zero rate at every position (all other rates pairwise distinct), two zeros, all equal,
+    all distinct, all zero; exact-sqrt and float rates; dims 2/3, ising/XY"""
+    out = []
+    for k in range(2, 6):
+        for pos in range(k):
+            dim, ising, exact = rng.choice([2, 3]), rng.random() < 0.6, rng.random() < 0.6
+            coeffs = rng.sample(range(1, 10), k)
+            coeffs[pos] = 0
+            out.append(multi_eff_case(rng, dim, ising, k, coeffs, exact, f"zero@{pos}/{k}"))
+    for dim in (2, 3):
+        for ising in (True, False):
+            out.append(multi_eff_case(rng, dim, ising, 2, [0, 3], True, "zero-first-of-2"))
+            out.append(multi_eff_case(rng, dim, ising, 3, [1, 0, 4], True, "zero-middle-of-3"))
+            out.append(multi_eff_case(rng, dim, ising, 3, [0, 5, 2], False, "zero-first-of-3"))
+    for _ in range(n_random):
+        k = rng.randint(2, 5)
+        dim, ising, exact = rng.choice([2, 3]), rng.random() < 0.6, rng.random() < 0.5
+        mode = rng.choice(["distinct", "distinct", "zeros", "zeros", "equal", "allzero", "mixed"])
+        if mode == "distinct":
+            coeffs = rng.sample(range(1, 10), k)
+        elif mode == "zeros":
+            coeffs = rng.sample(range(1, 10), k)
+            for pos in rng.sample(range(k), rng.randint(1, k - 1)):
+                coeffs[pos] = 0
+        elif mode == "equal":
+            coeffs = [rng.randint(1, 6)] * k
+        elif mode == "allzero":
+            coeffs = [0] * k
+        else:
+            coeffs = [rng.choice([0, 1, 2, 2, 5]) for _ in range(k)]
+        out.append(multi_eff_case(rng, dim, ising, k, coeffs, exact, mode))
+    return out
 
 
 def malformed_case(rng):
@@ -393,25 +452,44 @@ def property_check(ctx, case, impl, ref):
             continue
         E = [np.array(m, dtype=complex) for m in got[1]]
         P = [to_emu(m) for m in ref[kind]]
+        if kind == "eff_noise":
+            # compared as MULTISETS of non-null jump operators (a null operator has no dissipator, dropping or
+            # keeping it is the same process; the order of the channels is irrelevant): every (rate, operator)
+            # pairing must survive, so each sqrt(rate_k) * A_k must appear re-based exactly once
+            def canon(ms):
+                return sorted([[(v.real, v.imag) for v in m.flatten()] for m in ms if m.any()])
+
+            def flip_block(m):
+                f = np.array(m, dtype=complex)
+                f[:2, :2] = f[:2, :2][::-1, ::-1].copy()
+                return f
+
+            if canon(E) == canon(P):
+                continue
+            # known finding F-12 ONLY when the operators are exactly the flips of the upper-left 2x2 block of
+            # pulser's 3x3 ising operators (RebaseFlipBlock); any other discrepancy gets its own key
+            is_f12 = dim == 3 and ising and canon(E) == canon([flip_block(m) for m in ref[kind]])
+            ctx.violation(
+                f"eff_noise: the non-null emulator operators are not pulser's sqrt(rate_k) * A_k in emulator order "
+                f"{eo} (pulser order {po}); rates {case['eff_rates']}: {len([m for m in E if m.any()])} non-null "
+                f"emulator operators, {len([m for m in P if m.any()])} non-null pulser operators",
+                {"case": case, "emulator": str([m.tolist() for m in E]),
+                 "pulser_in_emu_order": str([m.tolist() for m in P]),
+                 "finding_key": "eff-noise-3x3" if is_f12 else "eff_noise-levels"})
+            continue
         if len(E) != len(P):
             ctx.violation(f"{kind}: {len(E)} emulator operators for {len(P)} pulser operators",
                           {"case": case, "finding_key": f"{kind}-count"})
             continue
         for k, (e, p) in enumerate(zip(E, P)):
-            if kind in ("relaxation", "eff_noise"):
+            if kind == "relaxation":
                 if not np.array_equal(e, p):
                     bad = [(eo[a], eo[b]) for a in range(dim) for b in range(dim) if e[a, b] != p[a, b]]
-                    # known finding F-12 ONLY when the operator is exactly the flip of the upper-left 2x2 block
-                    # of pulser's 3x3 ising operator (RebaseFlipBlock); any other discrepancy gets its own key
-                    flipped = np.array(ref[kind][k], dtype=complex)
-                    flipped[:2, :2] = flipped[:2, :2][::-1, ::-1].copy()
-                    is_f12 = kind == "eff_noise" and dim == 3 and ising and np.array_equal(e, flipped)
-                    key = "eff-noise-3x3" if is_f12 else f"{kind}-levels"
                     ctx.violation(
                         f"{kind} operator {k}: entries <a|L|b> differ from pulser's definition for level pairs "
                         f"{bad} (emulator order {eo}, pulser order {po})",
                         {"case": case, "op_index": k, "emulator": str(e.tolist()), "pulser_in_emu_order": str(p.tolist()),
-                         "finding_key": key})
+                         "finding_key": f"{kind}-levels"})
             else:
                 # same physical process = same dissipator on every elementary rho (exact, linear in rho)
                 for a in range(dim):
@@ -553,6 +631,7 @@ def run(ctx):
     cases = list(corpus_cases()) + elementary_cases() + kind_cases()
     cases += [random_real_case(rng, True) for _ in range(ctx.n(120, 1500))]
     cases += [random_real_case(rng, False) for _ in range(ctx.n(60, 800))]
+    cases += multi_eff_cases(rng, ctx.n(60, 800))
     cases += [malformed_case(rng) for _ in range(ctx.n(80, 1000))]
     try:
         static_ties(ctx)
@@ -571,7 +650,9 @@ def run(ctx):
                      "(C24_eff_noise_basis_change covers 3x3 ising operators only for RebasePermute)")
     for c, r, ref in zip(cases, impl, refs):
         property_check(ctx, c, r, ref)
-    ctx.rule = ("corpus + every elementary E_ij (2x2, 3x3, ising, XY) + every Lindbladian kind alone/combined + random real "
+    ctx.rule = ("corpus + every elementary E_ij (2x2, 3x3, ising, XY) + every Lindbladian kind alone/combined + multi-operator "
+                "eff_noise models (2-5 pairwise distinct operators; an exact zero rate at every position, equal, distinct, all-zero "
+                "rate vectors) + random real "
                 "pulser.NoiseModel objects (exact-sqrt integer coefficients and random float rates, with shot-to-shot "
                 "kinds mixed in) + duck-typed malformed models (kind order, duplicates, unknown kinds, wrong shapes, "
                 "rate/operator count mismatch, hyperfine); non-trivial = real code returned >= 1 operator")
